@@ -41,6 +41,9 @@ def jobs(tier, seed):
     from families import f4
     for d in f4.param_pairs(tier)[-24:]:       # integral-float spellings of n through every numeric and symbolic route
         add(d, NUM + EARLY + ASEXP, var="x")
+    for d in f4.f4(tier)[::(9 if tier == "quick" else 3)]:
+        if rt.variables_of(d):
+            add(d, ["asexp_giveup", "norm_giveup"], var=rt.variables_of(d)[0])
     m = c02.masked()
     for d in (m if tier == "thorough" else m[::2]):
         add(d, NUM + EARLY[:1], var="x")
@@ -86,7 +89,7 @@ def vcs(spec, ctx, outs):
         r = spec["routes"][k]
         if out["kind"] == "value":
             v = out["value"]
-            if r.startswith("asexp"):
+            if r.startswith("asexp") or r.endswith("_giveup"):
                 if v is not True:
                     res.append(common.kind_vc(f"as_expression-returns-expression[{r}]", ctx, out, z3.BoolVal(False), idx))
             elif common.val_term(out) is None:
